@@ -35,7 +35,13 @@ def run_cases(ck, res, n_cases, n_interval):
         if kind in ('shell2', 'shell1', 'inf'):
             net_p = Probe(3, r, kinds=nk)
             f_p, g_p = Probe(2, r, kinds=('one', 'sin', 'pow')), Probe(2, r, kinds=('one', 'sin', 'pow'))
-            net = make_net([net_p])
+            if ci % 4 == 1:
+                # a network whose parameters are float32 while the samples are float64 (mixed precision): the boundary data
+                # must still be evaluated at the float64 coordinates
+                with enga.default_dtype(torch, torch.float32):
+                    net = make_net([net_p])
+            else:
+                net = make_net([net_p])
             f = lambda th, ph: f_p.torch(th, ph)
             g = lambda th, ph: g_p.torch(th, ph)
             if kind == 'shell2':
@@ -45,8 +51,9 @@ def run_cases(ck, res, n_cases, n_interval):
             else:
                 cond = C.InfDirichletBVPSpherical(r_0=r0, f=f, g=g, order=k)
             rs = [r0] + ([r1] if kind == 'shell2' else []) + [dy(r, 0, 8, 4) for _ in range(3)]
-            ths = [dy(r, 0, 3.125, 4) for _ in rs]
-            phs = [dy(r, 0, 6.25, 4) for _ in rs]
+            nd = lambda v: v + r.choice([0.01, 0.003, 1.0 / 300.0]) if r.random() < 0.4 else v      # not float32-representable
+            ths = [nd(dy(r, 0, 3.125, 4)) for _ in rs]
+            phs = [nd(dy(r, 0, 6.25, 4)) for _ in rs]
             R, TH, PH = enga.col(torch, rs), enga.col(torch, ths), enga.col(torch, phs)
             u = [float(v) for v in cond.enforce(net, R, TH, PH).detach().reshape(-1)]
             pv = {'r_0': r0, 'r_1': r1, 'order': k}
